@@ -6,6 +6,12 @@ base = json.load(open("/root/.vp/BASELINE.json"))
 with tempfile.TemporaryDirectory() as d:
     xml = os.path.join(d, "j.xml")
     env = dict(os.environ); env.pop("PYTASK_VERIF", None)
+    vf = os.path.join(repo, "src/_pytask/_version.py")
+    if not os.path.exists(vf) and os.path.exists("/repo/src/_pytask/_version.py"):
+        import shutil; shutil.copy("/repo/src/_pytask/_version.py", vf)   # generated file, untracked: worktrees lack it
+    env["PYTHONPATH"] = os.path.join(repo, "src")   # test the given tree, not the editable install of /repo
+    loc = subprocess.run(["/venv/bin/python", "-c", "import _pytask;print(_pytask.__file__)"], cwd=repo, env=env, capture_output=True, text=True).stdout.strip()
+    print("testing", loc)
     p = subprocess.run(["/venv/bin/python", "-m", "pytest", "-q", "-p", "no:cacheprovider", "--timeout=900",
                         "--continue-on-collection-errors", f"--junitxml={xml}", "-x" if "-x" in sys.argv else "-q"],
                        cwd=repo, env=env, capture_output=True, text=True)
